@@ -206,7 +206,9 @@ def fidelity(a, b):
 
 # ---------------------------------------------------------------- the check
 
-def _tol(method, sig):
+def _tol(method, sig, single=False):
+    if single:        # a float32 stack: numpy evaluates in single precision
+        return 5e-4 if (method in ('corr_cov', 'cosine_cov') and sig is not None) else 1e-4
     if method.startswith('bures'):
         return 1e-4
     if method in ('corr_cov', 'cosine_cov') and sig is not None:
@@ -237,7 +239,7 @@ def check_compare(case, call, permute_vec, permute_sigma):
     method, n, sig = case['method'], case['n'], case['sigma']
     X = [[fr(v) for v in r] for r in case['x']]
     Y = [[fr(v) for v in r] for r in case['y']]
-    tol = _tol(method, sig)
+    tol = _tol(method, sig, 'float32' in case.get('dtypes', ()))
     bures = method.startswith('bures')
     kern = {}
     if bures:
@@ -298,7 +300,7 @@ def check_compare(case, call, permute_vec, permute_sigma):
             if method == 'bures_metric' and M[i][j] < -tol * scale:
                 return _fail(case, 'range', 'squared Bures metric negative', M[i][j], '>= 0')
     # 2. symmetry in the two arguments
-    Mt = call(case['y'], case['x'], method, sig, 'array')
+    Mt = call(case['y'], case['x'], method, sig, 'array', (1, 0))
     if isinstance(Mt, dict):
         return _fail(case, 'symmetry', 'compare(y, x) raises', Mt, 'a matrix')
     for i in range(len(X)):
@@ -310,7 +312,7 @@ def check_compare(case, call, permute_vec, permute_sigma):
                 return _fail(case, 'symmetry', f'{method}: compare(x,y)[{i},{j}] != compare(y,x)[{j},{i}]',
                              M[i][j], Mt[j][i])
     # 4. an RDM with itself
-    S = call(case['x'], case['x'], method, sig, 'array')
+    S = call(case['x'], case['x'], method, sig, 'array', (0, 0))
     if isinstance(S, dict):
         return _fail(case, 'self', 'compare(x, x) raises', S, 'a matrix')
     for i, x in enumerate(X):
@@ -342,14 +344,15 @@ def check_compare(case, call, permute_vec, permute_sigma):
                     return _fail(case, 'perm', f'{method}: value changes when the conditions of both RDMs are '
                                  f'permuted together ({perm})', Mp[i][j], M[i][j])
     # 6. arrays and RDMs objects
-    for form in ('rdms', 'mixed', 'array1d'):
+    for form in ('rdms', 'mixed', 'array1d', 'rdms_sq'):
         Mr = call(case['x'], case['y'], method, sig, form)
         if isinstance(Mr, dict):
             return _fail(case, 'forms', f'compare raises for input form {form}', Mr, 'a matrix')
         for i in range(len(X)):
             for j in range(len(Y)):
                 a, b = M[i][j], Mr[i][j]
-                if (a is None) != (b is None) or (a is not None and abs(a - b) > 1e-12 + 1e-9 * abs(a)):
+                ftol = tol if 'float32' in case.get('dtypes', ()) else 1e-9
+                if (a is None) != (b is None) or (a is not None and abs(a - b) > 1e-12 + ftol * max(1.0, abs(a))):
                     return _fail(case, 'forms', f'{method}: arrays and RDMs objects ({form}) give different answers',
                                  b, a)
     return None
